@@ -90,9 +90,9 @@ static void EV_cb_emplace(struct fused_stop_source* self, int token) {
 /* callbacks_.reset(): destroys the registration (waits for an invocation running on another thread) */
 static void EV_cb_reset(struct fused_stop_source* self) {
   VF_P(!G.dead, "callbacks_.reset(): " DEAD_MSG);
+  if (!self->engaged) return;                       /* std::optional::reset() on a disengaged optional does nothing */
   VF_P(G.completed == 0, "C04: the forwarding callback is deregistered BEFORE the receiver is completed");
   VF_P(G.cb_state == CB_REGISTERED || G.cb_state == CB_EXEC_ME, "the forwarding callback is destroyed exactly once, after it was registered");
-  VF_P(self->engaged, "callbacks_ holds the registration");
   G.cb_state = CB_DESTRUCTED; G.cb_destructs++; self->engaged = 0;
 }
 /* source_.request_stop() on the interposed source: the child's stop callbacks run inside; the child may complete (with done)
@@ -175,9 +175,10 @@ __CPROVER_ensures(G.completed == 0 && !G.dead && G.cb_destructs == 0)
 
 /* fused_stop_source::deregister_callbacks() */
 void fused_deregister_callbacks(struct fused_stop_source* self)
-__CPROVER_requires(SRC_OK(self) && !G.dead && G.completed == 0 && G.cb_destructs == 0 && (G.cb_state == CB_REGISTERED || G.cb_state == CB_EXEC_ME) && self->engaged)
+__CPROVER_requires(SRC_OK(self) && !G.dead && B_IFF(self->engaged, G.cb_state == CB_REGISTERED || G.cb_state == CB_EXEC_ME) && (self->engaged ==> G.completed == 0))
 __CPROVER_assigns(SS, TK, G.cb_state, G.cb_destructs)
-__CPROVER_ensures(G.cb_state == CB_DESTRUCTED && G.cb_destructs == 1 && !self->engaged)
+__CPROVER_ensures(!self->engaged && G.cb_destructs == __CPROVER_old(G.cb_destructs) + (__CPROVER_old(THE_SOURCE->engaged) ? 1u : 0u)) /* the registration is destroyed iff there was one (reset() of an empty optional is a no-op) */
+__CPROVER_ensures(G.cb_state == (__CPROVER_old(THE_SOURCE->engaged) ? CB_DESTRUCTED : __CPROVER_old(G.cb_state)))
 /*@BODY fss_deregister*/
 
 /* start(): register, then start the child */
